@@ -230,6 +230,55 @@ func runC09(c *mon.Ctx) {
 			c.Sample("valid-roundtrip", map[string]any{"sig": vc.sig, "diag": a.WireCBOR().Diag()})
 		}
 	}
+	// (a') valid sets with many software components
+	counts := []int{15, 16, 17, 23, 24, 25, 63, 64, 65, 255, 256, 257, 1000}
+	if !c.Quick() {
+		counts = append(counts, 4096, 65535, 65536, 65537)
+	}
+	for ci, nc := range counts {
+		for p := 1; p <= 2; p++ {
+			if !c.Mine(ci*2 + p) {
+				continue
+			}
+			a := g.Valid(p)
+			a.HasComps, a.NoMeas, a.Comps = true, nil, nil
+			for j := 0; j < nc; j++ {
+				a.Comps = append(a.Comps, g.ValidComp())
+			}
+			x, err := obs.Build(a)
+			if err != nil {
+				c.Violation("C09/many-components-unbuildable/"+a.Canon, fmt.Sprintf("a valid set with %d components could not be built: %v", nc, err), nil)
+				continue
+			}
+			sig := fmt.Sprintf("component-count|P%d|%d", p, nc)
+			c.Sig(sig)
+			if pn, pv, fr := mon.Guard(func() {
+				c.Eval()
+				enc1, err := psatoken.EncodeClaimsToCBOR(x)
+				if err != nil {
+					c.Violation("C09/valid-encode-failed/"+a.Canon, fmt.Sprintf("encoding a valid set with %d components failed: %v", nc, err), map[string]any{"sig": sig})
+					return
+				}
+				y, err := psatoken.DecodeClaimsFromCBOR(enc1)
+				if err != nil {
+					c.Violation(fmt.Sprintf("C09/valid-decode-failed/%s/components=%d", a.Canon, nc), fmt.Sprintf("the library cannot decode its own encoding of a valid set with %d components: %v", nc, err), map[string]any{"sig": sig})
+					return
+				}
+				gx, gy := obs.Observe(x), obs.Observe(y)
+				if d := model.ObsDiff(&gx, &gy); d != "" {
+					c.Violation(fmt.Sprintf("C09/observation-changed/%s/components=%d", a.Canon, nc), "round trip of a set with many components changed it: "+trunc(d, 300), map[string]any{"sig": sig})
+					return
+				}
+				if enc2, err := psatoken.EncodeClaimsToCBOR(y); err != nil || !bytes.Equal(enc1, enc2) {
+					c.Violation(fmt.Sprintf("C09/bytes-unstable/%s/components=%d", a.Canon, nc), "second encoding differs", map[string]any{"sig": sig})
+					return
+				}
+				c.Count("many-component-roundtrips")
+			}); pn {
+				c.Violation("C09/panic/"+mon.PanicKey(fr), "panic during round trip of a set with many components", map[string]any{"panic": pv, "frame": fr, "sig": sig})
+			}
+		}
+	}
 	// (b) decodable but invalid / open tokens
 	m := c.N(150000, 4000000)
 	// systematic part: every byte-string position := tag(null) / tag(undefined) / null-like forms
@@ -333,6 +382,7 @@ func runC09(c *mon.Ctx) {
 		}
 		c.Sig(sig)
 	}
+	c.Floor("many-component-roundtrips", 20)
 	c.Floor("valid-roundtrips", 1000)
 	c.Floor("wire-decoded-invalid", 1000)
 	c.Floor("profile:"+extprof.ExtP2Name, 100)
